@@ -48,6 +48,8 @@ class CThread:
         self.started = False
         self.error = None
         self.real = None
+        self.finished_at_end = False
+        self.pending_at_end = None
 
     def enabled(self):
         if self.finished or not self.started:
@@ -196,6 +198,9 @@ class Sched:
                         break
                 self.step += 1
         finally:
+            for t in self.threads:
+                t.finished_at_end = t.finished      # before the tear-down unwinds what is left
+                t.pending_at_end = t.pending
             self.teardown()
         return self.outcome
 
@@ -244,15 +249,21 @@ def rr_policy(sched, r):
     return sched.step
 
 
-def prio_policy(order, burst=8):
+def prio_policy(order, burst=8, patience=60):
     """Pick the first runnable thread whose label starts with one of the prefixes in `order`
     (TIME is 'T').  Fair: a thread that has had `burst` consecutive steps while another choice
     existed gives way once (a strict priority would let a thread spin between the clock
-    thread's set() and clear() for ever)."""
-    state = {'last': None, 'n': 0}
+    thread's set() and clear() for ever), and a runnable thread that has not had a step for
+    `patience` steps gets one."""
+    state = {'last': None, 'n': 0, 'seen': {}}
 
     def pol(sched, r):
         labs = [t if t == TIME else t.label for t in r]
+        for lab in labs:
+            state['seen'].setdefault(lab, sched.step)
+        for lab in list(state['seen']):
+            if lab not in labs:
+                del state['seen'][lab]
         cands = []
         for p in order:
             for i, lab in enumerate(labs):
@@ -264,10 +275,14 @@ def prio_policy(order, burst=8):
         pick = cands[0]
         if labs[pick] == state['last'] and state['n'] >= burst and len(cands) > 1:
             pick = cands[1]
+        starving = [i for i, lab in enumerate(labs) if lab != TIME and sched.step - state['seen'][lab] > patience]
+        if starving:
+            pick = starving[0]
         if labs[pick] == state['last']:
             state['n'] += 1
         else:
             state['last'], state['n'] = labs[pick], 1
+        state['seen'][labs[pick]] = sched.step
         return pick
     return pol
 
